@@ -150,6 +150,9 @@ func BuildSwitchMessage(r *rec.Rec) (util.Message, error) {
 		}
 		h.Elements = nil
 		for _, e := range r.List("elements") {
+			if e.K != "hello_versionbitmap" {
+				continue // elements of unknown type are not representable (a receiver skips them)
+			}
 			vb := common.NewHelloElemVersionBitmap()
 			vb.Bitmaps = nil
 			bm := e.Bytes("bitmaps")
